@@ -5,6 +5,7 @@ LBP code mapping and histogram (lbp.py, _lbp.cpp), `moments` (moments.py), SURF 
 -/
 import Mahotas.Model.Basic
 import Mahotas.Generated.Tables
+import Mahotas.Model.C19Tas
 namespace Mahotas.C19
 open Mahotas Mahotas.Generated
 
@@ -465,6 +466,7 @@ def handle (a : Args) : String :=
     s!"z={showFloats (zs.flatMap fun z => [z.1, z.2])} abs={showFloats (zs.map fun z => Float.sqrt (cxNormSq z))} nsel={nsel}"
   | "tables" =>
     s!"d2={showInts deltas2d.flatten} d3={showInts deltas3d.flatten} fact={showNats factorialTable}"
+  | "tas" => C19Tas.handle a
   | k => s!"error=unknown-kind-{k}"
 
 end Mahotas.C19
